@@ -31,8 +31,7 @@ ASSUMPTIONS = [
     "_sequence_encoding, _torch_*, _numpy_rng, _python_logger, *.is_path, *.torch_save, *.np_scalar), and no object carrying attribute pairs that "
     "the duck-typed dispatch reads as scheduler / logger / NumPy scalar (step+get_last_lr, log+info, add_scalar+add_image, dtype+item)",
     "all-numeric sequences (and sets): integers within int64",
-    "optimizers / schedulers (not among the property's value kinds) are generated as attributes only; modules, tensors, loggers and rng generators anywhere "
-    "(rng generators inside containers only through the kind matrix)",
+    "optimizers / schedulers (not among the property's value kinds) are generated as attributes only; modules, tensors, loggers and rng generators anywhere",
     "arrays: native byte order, dtypes zarr 3 stores (no object / longdouble); Python complex / bytes / frozenset (dill fallback kinds) are not generated",
     "NumPy scalars and all-numeric sequences are compared by value, rng generators / loggers / summary writers by kind only, NaN == NaN",
     "dict / attribute order and array memory layout are not part of structural equality; aliasing between members is not compared",
@@ -57,7 +56,7 @@ def plan(tier, seed):
             if not serkinds.placement_ok(k, p):
                 continue
             j += 1
-            if tier == "quick" and p not in CORE_PLACEMENTS and (j + seed) % 3:
+            if tier == "quick" and p not in CORE_PLACEMENTS and (j + seed) % 4:
                 continue
             specs.append({"kind": "matrix", "vkind": k, "placement": p})
     for nm in serkinds.NASTY_NAMES:
